@@ -4,6 +4,7 @@ CONSTANTS MaxBr = 3 MaxN = 3 CopyMode = "deep"
   FillBr = 3
   ExtraBr = 3
   Shapes <- AllShapes
+  Classes <- AllClasses
   FillTemplates <- FillFew
   Templates <- AllTemplates
 INVARIANT Emitted
